@@ -395,6 +395,8 @@ def run_sliding(desc):
             ops.append(("set_params", "window_size=%s" % w, 0))
             ref = collections.deque(ref, maxlen=w)
         X, y = _data(rng, "clf", n=int(rng.randint(1, 6)))
+        if step > 0 and rng.rand() < 0.2:
+            y[:] = np.nan          # a chunk without any label still moves the window
         sw = np.round(rng.rand(len(X)) + 0.2, 2) if use_w else None
         if use_w and mixed_w and rng.rand() < 0.4:
             sw = None          # a call without weights in a weighted history: the stored weights are dropped (count as one)
